@@ -26,7 +26,7 @@ Lemma linkify_structure v o e : xhtml_escape v = Ok e ->
   exists segs ps,
     linkify v o = Ok (render ps) /\ src segs = e /\ Forall seg_shaped segs /\
     Forall2 (piece_spec o) segs ps /\
-    (~ In 62 (o_extra o) -> strip_tags (render ps) false = unlinked ps).
+    (extra_clean (o_extra o) -> strip_tags (render ps) false = unlinked ps).
 Proof.
   intros H. exists (segments e), (pieces o (segments e)).
   split; [apply linkify_ok; exact H|]. split; [apply segments_src|]. split; [apply segments_shaped|].
@@ -37,7 +37,7 @@ Qed.
 
 Lemma anchors_removed v o e : xhtml_escape v = Ok e -> o_shorten o = false ->
   exists ps, linkify v o = Ok (render ps) /\ unlinked ps = e /\
-             (~ In 62 (o_extra o) -> strip_tags (render ps) false = e).
+             (extra_clean (o_extra o) -> strip_tags (render ps) false = e).
 Proof.
   intros H Sh. exists (pieces o (segments e)). split; [apply linkify_ok; exact H|].
   assert (U : unlinked (pieces o (segments e)) = e) by (rewrite unlinked_noshorten by exact Sh; apply segments_src).
@@ -89,7 +89,7 @@ Definition witness_label : list N :=
   [104;116;116;112;58;47;47;119;119;119;46;101;120;97;109;112;108;101;46;99;111;109;47;97;98;99;100;101;46;46;46].
 
 Lemma witness_now_fine :
-  linkify (SStr witness_text) (mk_opts true [] false [[104;116;116;112]]) =
+  linkify (SStr witness_text) (mk_opts true (XSStr []) false [[104;116;116;112]]) =
   Ok (a_open ++ html_escape witness_text ++ 34 :: title_attr (html_escape witness_text) ++ 62 :: witness_label ++ a_close).
 Proof. vm_compute. reflexivity. Qed.
 
@@ -103,3 +103,40 @@ Example witness_segments :
 Proof. vm_compute. reflexivity. Qed.
 Example bytes_can_fail : xhtml_escape (SBytes [255]) = Err EUnicodeDecode.
 Proof. vm_compute. reflexivity. Qed.
+
+(* ---------------- extra_params, str or callable ---------------- *)
+(* whatever extra_params is -- any str, ANY function from href to text -- it has no
+   influence on whether a match becomes a link, on the href or on the label *)
+Lemma extra_irrelevant o x m : erase_params (make_link (with_extra o x) m) = erase_params (make_link o m).
+Proof.
+  unfold make_link, with_extra. cbn [o_require o_permitted o_shorten o_extra].
+  destruct (o_require o && negb (has_proto m)); [reflexivity|].
+  destruct (has_proto m && negb (mem (proto_text m) (o_permitted o))); [reflexivity|].
+  destruct (if o_shorten o then shorten_url m else (m_g1 m, false)) as [label short]. reflexivity.
+Qed.
+
+(* the text after the href attribute is exactly: nothing (empty str), or a space and the
+   stripped str, or a space and the stripped result of the callable applied to the href
+   that is rendered; followed by title=href exactly when the label was shortened *)
+Lemma link_params o m href params label : make_link o m = PLink href params label ->
+  params = params_of (o_extra o) href ++ (if negb (list_N_eqb label (m_g1 m)) then title_attr href else []) /\
+  href = (if has_proto m then m_g1 m else http_prefix ++ m_g1 m).
+Proof.
+  unfold make_link.
+  destruct (o_require o && negb (has_proto m)); [discriminate|].
+  destruct (has_proto m && negb (mem (proto_text m) (o_permitted o))); [discriminate|].
+  destruct (if o_shorten o then shorten_url m else (m_g1 m, false)) as [l short] eqn:E3.
+  intros [= <- <- <-]. split; [|reflexivity]. f_equal.
+  assert (K : short = negb (list_N_eqb l (m_g1 m))).
+  { destruct (o_shorten o).
+    - destruct (shorten_url_spec m _ _ E3) as [[-> ->]|(-> & p & P & -> & L & _)].
+      + fold (text_eqb (m_g1 m) (m_g1 m)). rewrite (proj2 (text_eqb_eq _ _) eq_refl). reflexivity.
+      + fold (text_eqb (p ++ dots) (m_g1 m)). destruct (text_eqb (p ++ dots) (m_g1 m)) eqn:T; [|reflexivity].
+        apply text_eqb_eq in T. rewrite <- T in L. rewrite app_length in L. cbn in L. lia.
+    - injection E3 as <- <-. fold (text_eqb (m_g1 m) (m_g1 m)). rewrite (proj2 (text_eqb_eq _ _) eq_refl). reflexivity. }
+  rewrite K. reflexivity.
+Qed.
+
+(* a bytes argument is treated exactly as the str it decodes to *)
+Lemma linkify_bytes_as_str b s o : to_unicode_s (SBytes b) = Ok s -> linkify (SBytes b) o = linkify (SStr s) o.
+Proof. unfold linkify, xhtml_escape. intros ->. reflexivity. Qed.
